@@ -40,6 +40,11 @@ Violations(e) ==
     \cup (IF e.n = 0 /\ e.err = "" THEN {"NeverZeroWithoutError"} ELSE {})
     \cup (IF closedBy = "" /\ wrote[e.dir] > got[e.dir] /\ e.n = 0 THEN {"Delivery"} ELSE {})
     \cup (IF closedBy # "" /\ e.n = 0 /\ e.err = "timeout" THEN {"EOSAfterClose"} ELSE {})
+  ELSE IF e.op = "Bulk" THEN
+    \* both directions at once: everything written arrives, exactly once, in order, unmodified
+    (IF e.err # "" THEN {"WriteAccepted"} ELSE {})
+    \cup (IF e.n # e.size THEN {"Delivery"} ELSE {})
+    \cup (IF e.off # -1 THEN {"NoLossNoDupNoReorder"} ELSE {})
   ELSE {}
 
 TraceNext ==
@@ -50,9 +55,11 @@ TraceNext ==
          rs == IF e.op = "R" /\ e.n > 0 THEN ReadStep(mq[e.dir], mcur[e.dir], e.size, e.n)
                ELSE [ok |-> TRUE, q |-> <<>>, cur |-> -1]
      IN /\ wrote' = IF reset THEN [x \in Dirs |-> 0]
-                    ELSE IF e.op = "W" /\ e.n > 0 THEN [wrote EXCEPT ![e.dir] = @ + e.n] ELSE wrote
+                    ELSE IF e.op = "W" /\ e.n > 0 THEN [wrote EXCEPT ![e.dir] = @ + e.n]
+                    ELSE IF e.op = "Bulk" THEN [wrote EXCEPT ![e.dir] = @ + e.size] ELSE wrote
         /\ got' = IF reset THEN [x \in Dirs |-> 0]
-                  ELSE IF e.op = "R" /\ e.n > 0 THEN [got EXCEPT ![e.dir] = @ + e.n] ELSE got
+                  ELSE IF e.op = "R" /\ e.n > 0 THEN [got EXCEPT ![e.dir] = @ + e.n]
+                  ELSE IF e.op = "Bulk" THEN [got EXCEPT ![e.dir] = @ + e.n] ELSE got
         /\ closedBy' = IF reset THEN "" ELSE IF e.op = "Close" THEN e.end ELSE closedBy
         /\ mq' = IF reset THEN [x \in Dirs |-> <<>>]
                  ELSE IF e.op = "W" /\ e.err = "" THEN [mq EXCEPT ![e.dir] = Append(@, e.size)]
